@@ -78,3 +78,11 @@ Theorem C17_trailing_jr_untouched : forall aliases columns,
   process_header aliases columns false s_jr = Some [s_jr] \/ mem s_jr columns = true \/ alias_get s_jr aliases <> None.
 Proof. exact trailing_jr_untouched. Qed.
 Print Assumptions C17_trailing_jr_untouched.
+
+(* a parameter is name, "=", value: the value is everything after the FIRST "=" of its part, so a malformed value such as 6=40 reaches the
+   check of the parameter that uses it instead of being cut to 6 (defect F96, repaired) *)
+Theorem C17_parameter_value_is_whole : forall k v, nochar 61%N k = true ->
+  parse_part (k ++ 61%N :: v) =
+  inl (Some (py_strip (lower_ascii k), if mem (py_strip (lower_ascii k)) [s_label; s_value] then py_strip v else py_strip (lower_ascii v))).
+Proof. exact part_value_is_whole. Qed.
+Print Assumptions C17_parameter_value_is_whole.
